@@ -1905,6 +1905,19 @@ M("C11", "label-list-stripped-in-place-by-a-callee", "src/food_system/unit_conve
 M("C17", "korea-labels-restyled", "src/utilities/import_utilities.py",
   '        "Republic of Korea",', '        "Korea (Republic of)",', "C17.WIRE")
 
+# --- rules added with the tenth round of seeded changes
+M("C13", "stock-ratio-rewritten-after-its-override", RUNF,
+  '            assert 0 <= constants_for_params["RATIO_STOCKS_UNTOUCHED"] <= 1\n\n        # apply fix multiplier to crop production\n',
+  '            assert 0 <= constants_for_params["RATIO_STOCKS_UNTOUCHED"] <= 1\n\n        if scenario_option_copy["stored_food"] == "zero":\n'
+  '            constants_for_params["RATIO_STOCKS_UNTOUCHED"] = 0\n\n        # apply fix multiplier to crop production\n',
+  "C13.OVERRIDE")
+M("C13", "threshold-reset-by-a-setter-after-its-override", RUNF,
+  '            assert 0 <= constants_for_params["RATIO_STOCKS_UNTOUCHED"] <= 1\n\n        # apply fix multiplier to crop production\n',
+  '            assert 0 <= constants_for_params["RATIO_STOCKS_UNTOUCHED"] <= 1\n\n        if scenario_option_copy["scale"] == "global":\n'
+  '            constants_for_params = scenario_loader.set_immediate_shutoff(\n                constants_for_params\n            )\n\n'
+  '        # apply fix multiplier to crop production\n',
+  "C13.OVERRIDE")
+
 
 def seeded_for(pid):
     """sub-agent-written defects kept under /verif/seeded/<id>/ (patch.diff + meta.json); an entry is replayed for every
